@@ -827,6 +827,11 @@ func (r *cliRun) startOp(kind string, specs []cspec, withDeadline bool) int {
 				}
 			default:
 				line = "call\tR," + chex(rsp.ResultString())
+				// a proxy relabels the response it got (Response.SetID, as jhttp.Bridge does), here with the id of
+				// another request of this client: that is the caller's business and changes nothing in the client
+				if other := r.otherSeenID(rsp.ID()); other != "" {
+					rsp.SetID(other)
+				}
 			}
 		case "batch":
 			var ss []jrpc2.Spec
@@ -861,6 +866,18 @@ func (r *cliRun) startOp(kind string, specs []cspec, withDeadline bool) int {
 	}()
 	r.settleEnv()
 	return n
+}
+
+// otherSeenID is the id of the most recently transmitted request other than id ("" if there is none).
+func (r *cliRun) otherSeenID(id string) string {
+	r.ch.mu.Lock()
+	defer r.ch.mu.Unlock()
+	for i := len(r.ch.seen) - 1; i >= 0; i-- {
+		if r.ch.seen[i] != id {
+			return r.ch.seen[i]
+		}
+	}
+	return ""
 }
 
 func (r *cliRun) closeOp() int {
